@@ -133,7 +133,7 @@ func dirCases(r *mon.Run) []dirCase {
 				}
 			}
 		}
-		out = append(out, dirCase{"sharded", f, "alias", 24, 0})
+		out = append(out, dirCase{"sharded", f, "alias", 24, 0}, dirCase{"sharded", f, "verylong", 30 + f/8, 0})
 		lg := bits.TrailingZeros(uint(f))
 		// crafted sets: force every depth up to the last usable level
 		for s := lg; s < 64; s += lg {
@@ -160,6 +160,7 @@ func dirCases(r *mon.Run) []dirCase {
 	for _, fam := range fams {
 		out = append(out, dirCase{"auto", 0, fam, 40, 0}, dirCase{"quick", 0, fam, 25, 0})
 	}
+	out = append(out, dirCase{"auto", 0, "verylong", 300, 0}, dirCase{"auto", 0, "verylong", 20, 0})
 	out = append(out, dirCase{"quick", 0, "long", 1025, 0}, dirCase{"quick", 0, "long", 1024, 0}, dirCase{"quick", 0, "ascii", 0, 0}, dirCase{"auto", 0, "crafted", 4, 40})
 	if !r.Quick() {
 		out = append(out, dirCase{"auto", 0, "ascii", 20000, 0}, dirCase{"auto", 0, "mixed", 30000, 0})
